@@ -93,6 +93,8 @@ def gen_plan(run_seed, tier, index):
                           # the new reference may spell the namespace in
                           # another lexical case
                           r.random() < 0.3])
+        elif k < 0.97:
+            steps.append(['add_subclass', r.randrange(1 << 30)])
         else:
             steps.append(['query_only', r.randrange(1 << 30)])
     return {'check': ID, 'model_seed': mseed, 'steps': steps,
@@ -619,6 +621,87 @@ def execute(plan):
                      out[1].status_code,
                      'step %d ModifyInstance(%s.%s -> %s): %r' %
                      (i, inst.path, d['name'], newref, out[1]))
+                break
+        elif kind == 'add_subclass':
+            # a new subclass of an end class appears through add_cimobjects
+            # (which writes to the class store directly), after the class
+            # filters have been in use; then an instance of it is linked
+            vr = random.Random(st[1])
+            base = vr.choice(plain_classes)
+            es = ends()
+            for k0 in es[:3]:
+                x0 = copy.deepcopy(RM.inst[k0]['path'])
+                call('AssociatorNames', ObjectName=x0,
+                     ResultClass=base['name'])
+                call('ReferenceNames', ObjectName=copy.deepcopy(x0),
+                     ResultClass=assoc_classes[0]['name'])
+                call('AssociatorNames', ObjectName=copy.deepcopy(x0),
+                     AssocClass=assoc_classes[0]['name'])
+            name = 'Dyn%d' % i
+            newc = {'name': name, 'super': base['name'], 'props': [],
+                    'methods': [], 'assoc': False, 'desc': None}
+            ok = True
+            for ns in model['namespaces']:
+                try:
+                    conn.add_cimobjects(pywbem.CIMClass(
+                        name, superclass=base['name']), namespace=ns)
+                except Exception as e:  # pylint: disable=broad-except
+                    viol('add-subclass-failed/' + type(e).__name__, repr(e))
+                    ok = False
+                    break
+            if not ok:
+                break
+            model['classes'].append(newc)
+            RM.cmap[name.lower()] = newc
+            plain_classes.append(newc)
+            M.bump('subclass_added_via_add_cimobjects')
+            # an instance of the new class, and an association to it
+            ns = vr.choice(model['namespaces'])
+            props = {}
+            for d in RM.all_props(name).values():
+                if d.get('key'):
+                    v = mg.gen_value(vr, d['type'], False, 0.0)
+                    if d['type'] == 'string':
+                        v['v'] = 'dyn%d' % vr.randrange(1000)
+                    props[d['name']] = v
+            inst = mg.inst_to_cim({'cls': name, 'props': props}, newc)
+            out = call('CreateInstance', NewInstance=copy.deepcopy(inst),
+                       namespace=ns)
+            if out[0] != 'ok':
+                if out[0] != 'cim':
+                    viol('undocumented-exception/CreateInstance/' +
+                         type(out[1]).__name__, repr(out[1]))
+                continue
+            nk = RM.store(ns, inst)
+            for ac in assoc_classes:
+                rp = ref_props(ac['name'])
+                vals = []
+                for d in rp:
+                    if RM.is_sub(name, d['ref']) and nk not in [
+                            v[0] for v in vals]:
+                        vals.append((nk, d))
+                    else:
+                        c2 = [k for k in ends() if k[0] == ns.lower() and
+                              RM.is_sub(k[1], d['ref'])]
+                        if not c2:
+                            vals = None
+                            break
+                        vals.append((c2[vr.randrange(len(c2))], d))
+                if not vals or nk not in [v[0] for v in vals]:
+                    continue
+                aprops = [CIMProperty(
+                    d['name'], copy.deepcopy(RM.inst[k2]['path']),
+                    type='reference', reference_class=d['ref'])
+                    for k2, d in vals]
+                ainst = CIMInstance(ac['name'], properties=aprops)
+                if RM.make_key(ns, ainst) in RM.inst:
+                    continue
+                out = call('CreateInstance', NewInstance=copy.deepcopy(ainst),
+                           namespace=ns)
+                if out[0] == 'ok':
+                    RM.store(ns, ainst)
+                    nassoc_seen += 1
+                    M.bump('assoc_created_to_new_subclass')
                 break
         elif kind == 'create_end':
             vr = random.Random(st[1])
